@@ -759,8 +759,10 @@ func (e *Engine) sliceOp(st *State, ins *ssa.Slice) Value {
 	} else {
 		lo = IntLit(0)
 	}
-	if ins.Max != nil {
-		panic(unsupported("3-index slice"))
+	var mx Term
+	hasMax := ins.Max != nil
+	if hasMax {
+		mx = e.term(st, ins.Max)
 	}
 	switch x := e.val(st, ins.X).(type) {
 	case SliceV:
@@ -769,9 +771,17 @@ func (e *Engine) sliceOp(st *State, ins *ssa.Slice) Value {
 		} else {
 			hi = x.Len
 		}
+		if hasMax {
+			// s[lo:hi:max]: capacity max-lo
+			e.oblige(st, "safe", "slice_bounds", And(Le(IntLit(0), lo), Le(lo, hi), Le(hi, mx), Le(mx, x.Cap)), ins.Pos())
+			return SliceV{Arr: x.Arr, Off: Add(x.Off, lo), Len: Sub(hi, lo), Cap: Sub(mx, lo), Elem: x.Elem}
+		}
 		e.oblige(st, "safe", "slice_bounds", And(Le(IntLit(0), lo), Le(lo, hi), Le(hi, x.Cap)), ins.Pos())
 		return SliceV{Arr: x.Arr, Off: Add(x.Off, lo), Len: Sub(hi, lo), Cap: Sub(x.Cap, lo), Elem: x.Elem}
 	case Term: // string
+		if hasMax {
+			panic(unsupported("3-index slice of a string"))
+		}
 		if hasHi {
 			hi = e.term(st, ins.High)
 		} else {
@@ -793,6 +803,10 @@ func (e *Engine) sliceOp(st *State, ins *ssa.Slice) Value {
 			hi = e.term(st, ins.High)
 		} else {
 			hi = n
+		}
+		if hasMax {
+			e.oblige(st, "safe", "slice_bounds", And(Le(IntLit(0), lo), Le(lo, hi), Le(hi, mx), Le(mx, n)), ins.Pos())
+			return SliceV{Arr: x.Ref, Off: lo, Len: Sub(hi, lo), Cap: Sub(mx, lo), Elem: at.Elem()}
 		}
 		e.oblige(st, "safe", "slice_bounds", And(Le(IntLit(0), lo), Le(lo, hi), Le(hi, n)), ins.Pos())
 		return SliceV{Arr: x.Ref, Off: lo, Len: Sub(hi, lo), Cap: Sub(n, lo), Elem: at.Elem()}
